@@ -323,9 +323,25 @@ func runBMCOnce(h func(), attempt int) (fails []string, applicable bool, panicke
 		}
 	}
 	// let everything settle (virtual time: pending Pace sleeps elapse first)
+	// ... for at least 200 ms of virtual time, and past the last instant of the
+	// counterexample; stop as soon as a failure has been recorded (a goroutine
+	// spinning on short sleeps would make the rest of the wait very long)
+	var endT int64
+	for _, st := range traceSteps {
+		if st.at > endT {
+			endT = st.at
+		}
+	}
+	settle := 200*time.Millisecond + time.Duration(endT)
 	for i := 0; i < 200; i++ {
 		synctest.Wait()
-		time.Sleep(time.Millisecond)
+		mu.Lock()
+		failed := len(Failures) > 0
+		mu.Unlock()
+		if failed {
+			break
+		}
+		time.Sleep(settle / 200)
 	}
 	synctest.Wait()
 	nmu.Lock()
